@@ -6,6 +6,9 @@
 #include <csignal>
 #include <sys/wait.h>
 #include <unordered_map>
+#if defined(__SANITIZE_ADDRESS__)
+#include <sanitizer/lsan_interface.h>
+#endif
 
 // ---------------------------------------------------------------------------
 // allocation failure injection: replacement operator new + GMP allocators
@@ -86,7 +89,7 @@ const char* code_name(int c) {
 // guarded / forked call
 // ---------------------------------------------------------------------------
 CallResult guarded(const std::function<int()>& fn, long arm_k) {
-  CallResult cr; cr.r = 0; cr.escaped = false; cr.crashed = false; cr.crash_sig = 0; cr.fired = false;
+  CallResult cr; cr.r = 0; cr.escaped = false; cr.crashed = false; cr.crash_sig = 0; cr.fired = false; cr.leaked = false;
   cr.exc.reserve(64);
   g_handler.count = 0; g_handler.code = 0; g_handler.desc[0] = 0;
   const char* what = 0; bool esc = false; int r = 0;
@@ -104,8 +107,8 @@ CallResult guarded(const std::function<int()>& fn, long arm_k) {
 }
 
 static void child_sig(int s) { _exit(100 + (s & 31)); }
-CallResult forked(const std::function<int()>& fn) {
-  CallResult cr; cr.r = 0; cr.escaped = false; cr.crashed = false; cr.crash_sig = 0; cr.fired = false; cr.allocs = 0; cr.hcount = 0; cr.hcode = 0;
+CallResult forked(const std::function<int()>& fn, bool leak_check) {
+  CallResult cr; cr.r = 0; cr.escaped = false; cr.crashed = false; cr.crash_sig = 0; cr.fired = false; cr.allocs = 0; cr.hcount = 0; cr.hcode = 0; cr.leaked = false;
   int fd[2];
   if (pipe(fd) != 0) { cr.crashed = true; cr.exc = "pipe failed"; return cr; }
   fflush(0);
@@ -116,21 +119,25 @@ CallResult forked(const std::function<int()>& fn) {
     signal(SIGSEGV, child_sig); signal(SIGBUS, child_sig); signal(SIGABRT, child_sig); signal(SIGFPE, child_sig); signal(SIGILL, child_sig);
     alarm(20);
     CallResult c = guarded(fn, 0);
-    int msg[4] = { c.r, c.escaped ? 1 : 0, c.hcount, c.hcode };
+    int leak = 0;
+#if defined(__SANITIZE_ADDRESS__)
+    if (leak_check) leak = __lsan_do_recoverable_leak_check();
+#endif
+    int msg[5] = { c.r, c.escaped ? 1 : 0, c.hcount, c.hcode, leak };
     if (write(fd[1], msg, sizeof msg) != (ssize_t) sizeof msg) _exit(98);
     _exit(0);
   }
   close(fd[1]);
-  int msg[4] = { 0, 0, 0, 0 };
+  int msg[5] = { 0, 0, 0, 0, 0 };
   ssize_t n = read(fd[0], msg, sizeof msg);
   close(fd[0]);
   int st = 0; waitpid(pid, &st, 0);
-  if (n == (ssize_t) sizeof msg) { cr.r = msg[0]; cr.escaped = msg[1] != 0; cr.hcount = msg[2]; cr.hcode = msg[3]; if (cr.escaped) cr.exc = "exception (forked call)"; }
+  if (n == (ssize_t) sizeof msg) { cr.r = msg[0]; cr.escaped = msg[1] != 0; cr.hcount = msg[2]; cr.hcode = msg[3]; cr.leaked = msg[4] != 0; if (cr.escaped) cr.exc = "exception (forked call)"; }
   else {
     cr.crashed = true;
     if (WIFSIGNALED(st)) cr.crash_sig = WTERMSIG(st);
     else if (WIFEXITED(st) && WEXITSTATUS(st) >= 100) cr.crash_sig = WEXITSTATUS(st) - 100;
-    else cr.crash_sig = -1;
+    else cr.crash_sig = WIFEXITED(st) ? -WEXITSTATUS(st) : -999;
   }
   return cr;
 }
@@ -220,13 +227,14 @@ static mpz_class rand_coef_value() {
   mpz_class b; mpz_ui_pow_ui(b.get_mpz_t(), 10, (unsigned) hx::rnd(10, 30)); return hx::coin() ? b : mpz_class(-b);
 }
 // shape: 0 general, 1 interval/bounded-difference only (accepted by every domain)
+static bool shape_allows_bd = true;
 static Linear_Expression rand_lhs(int n, int shape) {
   Linear_Expression e;
   if (n == 0) { e += hx::rnd(-3, 3); return e; }
   if (shape == 1) {
     int i = hx::rnd(0, n - 1);
     e += (hx::coin() ? 1 : -1) * Variable(i);
-    if (n > 1 && hx::coin(35)) { int j = hx::rnd(0, n - 1); if (j != i) { Linear_Expression f; f += e.coefficient(Variable(i)) * Variable(i); f -= e.coefficient(Variable(i)) * Variable(j); e = f; } }
+    if (n > 1 && shape_allows_bd && hx::coin(35)) { int j = hx::rnd(0, n - 1); if (j != i) { Linear_Expression f; f += e.coefficient(Variable(i)) * Variable(i); f -= e.coefficient(Variable(i)) * Variable(j); e = f; } }
     e += hx::rnd(-5, 5);
     return e;
   }
@@ -331,9 +339,13 @@ int mk_domain(Case& c, int type, int n, int topo) {
   if (ti.cat == CAT_PSET) { int t2; disjunct_of(nm, t2); nnc = t2 == 2; }
   void* h = 0; int idx = -1;
   int variant = hx::rnd(0, 99);
+  if (nm == "Grid" && variant < 25) variant += 40;   // Grid(cs) only accepts equalities
   if (variant < 25) {
     // from a constraint system of interval / bounded-difference constraints (accepted by every domain)
-    int cs = mk_cs(c, n, false, 1); if (cs < 0) return -1;
+    shape_allows_bd = nm.find("Box") == std::string::npos;     // boxes only accept interval constraints
+    int cs = mk_cs(c, n, false, 1);
+    shape_allows_bd = true;
+    if (cs < 0) return -1;
     std::string f = "ppl_new_" + ctor + "_from_Constraint_System";
     bool ok = builder_ok(c, ccall(c, f, vp(&h), vp(c.objs[cs].h)), f.c_str());
     release_obj(c, cs); if (!ok) return -1;
